@@ -113,6 +113,7 @@ func (v *Vue) renderNodesWithContext(ctx VueContext, w io.Writer, nodes []*html.
 
 // toMapData converts any value to map[string]any for use as template context.
 // If data is already a map[string]any, it's returned as-is.
+// Any other map with string keys is copied into one.
 // If data is a struct, it's converted to a map using JSON tags.
 // Otherwise, returns an empty map (which will still allow field access via Stack.rootData fallback).
 func toMapData(data any) map[string]any {
@@ -120,6 +121,10 @@ func toMapData(data any) map[string]any {
 		return make(map[string]any)
 	}
 	if m, ok := data.(map[string]any); ok {
+		return m
+	}
+	// Any other map with string keys: map[string]string, named map types
+	if m, ok := reflect.StringKeyedMap(data); ok {
 		return m
 	}
 	// Try to convert struct to map using JSON tags
